@@ -10,7 +10,7 @@ import (
 func init() {
 	register(&Property{
 		ID:          "C12",
-		Explanation: "Decides structural clauses of 'exactly one truthful terminal result': every terminal notification issued by a pending-request table is paired with detaching that request from the table on every path (slot cleared / map entry deleted / taken with remove=true / table marked stopped), under the table's mutex; terminal notifiers are called only from table methods, and the non-terminal Committed notification only on a borrowed (not removed) request; every table type held by a node is closed by node.close, expired from the tick path (gc) and has its clock advanced on every path of node.tick; requests taken from the ReadIndex queue are terminated or registered on every path of add(); the Completed code is produced only at the apply/served sites; pooled request objects are re-initialised after Get (fresh result channel unless provably empty) and returned to the pool only behind the ready-to-release flag, which is set only after the result was delivered. Does not decide races between expiry, apply and Release.",
+		Explanation: "Decides structural clauses of 'exactly one truthful terminal result': every terminal notification issued by a pending-request table is paired with detaching that request from the table on every path (slot cleared / map entry deleted / taken with remove=true / table marked stopped), under the table's mutex; terminal notifiers are called only from table methods, and the non-terminal Committed notification only on a borrowed (not removed) request; every table type held by a node is closed by node.close, expired from the tick path (gc) and has its clock advanced on every path of node.tick; requests taken from the ReadIndex queue are terminated or registered on every path of add(); the Completed code is produced only at the apply/served sites; pooled request objects are re-initialised after Get (fresh result channel unless provably empty) and returned to the pool only behind the ready-to-release flag, which is set only after the result was delivered. Does not decide races between expiry, apply and Release. Request admission: slots filled only when empty/open/after hand-over, key agreement, keyed delivery, register-before-queue under the queued entry's identity, refused edges undo the registration.",
 		NotCovered:  "exactly-once under racing interleavings of expiry/apply/Release; that the value delivered equals the state machine's result (data flow through the apply queue)",
 		Run:         runC12,
 	})
